@@ -103,9 +103,10 @@ def selftest(ctx, vecs):
     open(vf, "w").write("".join(json.dumps(x) + "\n" for x in (base, m1, m2, m3, m4)))
     sc.run_driver(ctx, "read", [of, vf])
     got = verif.read_ndjson(of)
-    if any(m["vector"] == base for m in got) and not ctx.violations:
+    lines = {(m["line"], m["ns"]) for m in got}
+    if any(l == 1 for l, _ in lines) and not ctx.violations:
         raise verif.Undecided("binding self-test: the unchanged vector was rejected")
-    n = len([m for m in got if m["vector"] != base])
-    if n != 8:
-        raise verif.Undecided("binding self-test: %d of 8 corrupted expectations (4 x 2 namespaces) were rejected" % n)
-    return n
+    missed = [(l, ns) for l in (2, 3, 4, 5) for ns in ("client", "server") if (l, ns) not in lines]
+    if missed:
+        raise verif.Undecided("binding self-test: corrupted expectations ACCEPTED: %s" % missed)
+    return 8
